@@ -44,7 +44,13 @@ DEFS = {
     "blip_t": dict(line="blip = 5 * second", coq='(mkud "blip" None [] 5 1 [("second", mkq 1 1)] false)', keys=["blip"]),
     # a new name that gives an OLD spelling an earlier prefixed reading: 'dam' = deca+meter becomes deci+am
     "am": dict(line="am = 5 * second", coq='(mkud "am" None [] 5 1 [("second", mkq 1 1)] false)', keys=["am"]),
+    # new PREFIXES: beyond quetta, below quecto, a second name for 1e3
+    "bronto": dict(line="bronto- = 1e33 = Br-", prefix=True, keys=["bronto", "Br"],
+                   coq='(mkpd "bronto" (Some "Br") (10 ^ 33)%Z 1)'),
+    "tiny": dict(line="tiny- = 1e-33", prefix=True, keys=["tiny"], coq='(mkpd "tiny" None 1 (10 ^ 33)%positive)'),
+    "thousand": dict(line="thousand- = 1e3", prefix=True, keys=["thousand"], coq='(mkpd "thousand" None 1000 1)'),
 }
+PREFIX_DEFS = ["bronto", "tiny", "thousand"]
 MAIN_DEFS = ["blip", "smoot", "zork"]
 # contexts the model knows: name -> redefinitions (name, integer scale, reference)
 CTX = {
@@ -62,10 +68,10 @@ SYSTEMS = ["mks", "imperial", "cgs"]
 # unit strings; every name is multiplicative except the ones in PARSE_ONLY
 US_PARSED = ["meter", "m", "km", "kilometer", "yard", "foot", "ft", "inch", "mile", "kiloinch",
              "millikiloinch", "smoot", "smt", "kilosmoot", "blip", "zork", "second", "hour",
-             "km/hour", "mile/hour", "meter**2/second", "kilogram", "pound", "gram", "kph", "hertz", "joule", "kelvin",
+             "km/hour", "mile/hour", "meter**2/second", "kilogram", "pound", "gram", "kph", "hertz", "joule", "kelvin", "brontometer",
              "dimensionless", ""]
 US_RAW = [s for s in US_PARSED if s != "dimensionless"]
-PARSE_ONLY = ["degC", "degC/hour", "kilodegC", "nosuchunit", "kiloblip", "millikilosmoot"]
+PARSE_ONLY = ["degC", "degC/hour", "kilodegC", "nosuchunit", "kiloblip", "millikilosmoot", "thousandmeter", "tinysecond", "Brm"]
 SHADOW = ["dam"]          # used by the directed shadowing histories only
 ALL_STRINGS = US_PARSED + PARSE_ONLY + SHADOW      # extended below by the spellings of CI
 FORMATS = ["", "~", "P", "~P", "C", "D", "H", "L"]
@@ -378,7 +384,8 @@ class Fresh:
         names = sorted(DEFS)
         for n in range(len(names) + 1):
             for c in itertools.combinations(names, n):
-                if not ("blip" in c and "blip_t" in c) and ("am" not in c or len(c) == 1):
+                if (not ("blip" in c and "blip_t" in c) and ("am" not in c or len(c) == 1)
+                        and (not any(x in PREFIX_DEFS for x in c) or len(c) == 1)):
                     self.server(c)
 
     @staticmethod
@@ -557,6 +564,8 @@ def op_kind(op, klass, dflt="?"):
         name += "[system=]"
     if k == "setsys" and op[1] is None:
         name += "[None]"
+    if k == "define" and DEFS[op[1]].get("prefix"):
+        name += "[prefix]"
     if k == "enable":
         name += "[redef]" if op[1] in REDEF else "[rules]" if op[1] in RULES else "[plain]"
     return name
@@ -707,6 +716,8 @@ def coq_op(op):
     if k == "compat":
         return f"(OCompat (us {coq_str(op[1])}))", True
     if k == "define":
+        if DEFS[op[1]].get("prefix"):
+            return f"(ODefinePrefix {DEFS[op[1]]['coq']})", True
         return f"(ODefine {DEFS[op[1]]['coq']})", True
     if k == "enable":
         return f"(OEnable {coq_str(op[1])})", True
@@ -784,7 +795,7 @@ def random_ops(rng, n, model_only=True, with_other=True):
         elif x < 0.66:
             op = ("compat", rng.choice(US_RAW if model_only or rng.random() < 0.5 else ["meter", "hertz", "joule", "kelvin", "gram", "second"]))
         elif x < 0.71:
-            op = ("define", rng.choice(MAIN_DEFS))
+            op = ("define", rng.choice(MAIN_DEFS + MAIN_DEFS + PREFIX_DEFS))
         elif x < 0.79:
             op = ("enable", rng.choice(["ra", "rb", "rn", "ra", "rb"] + ([] if model_only else ["sp", "boltzmann", "energy", "sp"])))
         elif x < 0.86:
@@ -808,7 +819,8 @@ def random_ops(rng, n, model_only=True, with_other=True):
             if y < 0.3:
                 op = ("fmt", u, rng.choice(FORMATS))
             elif y < 0.5:
-                op = ("compact", rng.choice(["meter", "inch", "smoot", "foot", "second", "gram"]), rng.choice(["1500", "1/1000", "3", "250000"]))
+                op = ("compact", rng.choice(["meter", "inch", "smoot", "foot", "second", "gram"]),
+                      rng.choice(["1500", "1/1000", "3", "250000", "2e35", "3e-32", "5000"]))
             elif y < 0.7:
                 op = ("to", u, rng.choice(["meter", "foot", "smoot", "km/hour", "hertz"]), rng.choice(["1", "5/2"]))
             elif y < 0.8:
@@ -875,6 +887,12 @@ BASE_ALPHABET = [("base", "inch", None), ("base", "inch", "imperial"), ("enable"
 # (compared with the fresh registry only): every sequence up to length 4 / 5
 RULES_ALPHABET = [("enable", "sp"), ("enable", "boltzmann"), ("enable", "energy"), ("disable",),
                   ("compat", "meter"), ("compat", "joule"), ("compat", "kelvin"), ("to", "meter", "hertz", "1")]
+
+
+# to_compact against later definitions (units and PREFIXES); compared with the fresh registry only
+COMPACT_ALPHABET = [("compact", "meter", "1500"), ("compact", "meter", "2e35"), ("compact", "second", "3e-32"),
+                    ("compact", "smoot", "5000"), ("define", "bronto"), ("define", "tiny"), ("define", "thousand"),
+                    ("define", "smoot"), ("convert", "brontometer", "meter")]
 
 
 WITNESSES = {
@@ -1203,6 +1221,8 @@ def _run(ck, rng, thorough, klass, tk, systems, fresh, chk, coq_ok):
     trees_b = parallel(lambda pre: explore(alpha_b, depth_b, pre), roots_b)
     depth_r = 5 if thorough else 4
     trees_r = parallel(lambda op: explore(RULES_ALPHABET, depth_r, [op]), RULES_ALPHABET)
+    depth_c = 4 if thorough else 3
+    trees_c = parallel(lambda op: explore(COMPACT_ALPHABET, depth_c, [op]), COMPACT_ALPHABET)
     T["exhaustive"] = time.time()
 
     # ---- 3. the fresh-registry oracle on every step
@@ -1233,11 +1253,18 @@ def _run(ck, rng, thorough, klass, tk, systems, fresh, chk, coq_ok):
         p = precs[0]
         flat.append(([op0], p[1], p[2], p[3], p[4]))
         flatten_tree([op0], kids, flat)
+    n_rules = len(flat) - n_general - n_base
+    for op0, (precs, kids) in zip(COMPACT_ALPHABET, trees_c):
+        p = precs[0]
+        flat.append(([op0], p[1], p[2], p[3], p[4]))
+        flatten_tree([op0], kids, flat)
     ck.extra["exhaustive_histories"] = len(flat)
     ck.extra["exhaustive_depth"] = {"12-op alphabet": depth, f"{len(alpha_b)}-op base-units alphabet": depth_b,
-                                    "8-op rule-contexts alphabet (oracle only)": depth_r}
+                                    "8-op rule-contexts alphabet (oracle only)": depth_r,
+                                    "9-op to_compact x definitions alphabet (oracle only)": depth_c}
     ck.extra["exhaustive_histories_by_alphabet"] = {"12-op alphabet": n_general, f"{len(alpha_b)}-op base-units alphabet": n_base,
-                                                    "8-op rule-contexts alphabet (oracle only)": len(flat) - n_general - n_base}
+                                                    "8-op rule-contexts alphabet (oracle only)": n_rules,
+                                                    "9-op to_compact x definitions alphabet (oracle only)": len(flat) - n_general - n_base - n_rules}
     for h, rr, ans, before, qu in flat:
         inner = h[-1][1] if h[-1][0] == "other" else h[-1]
         q = oracle_question(inner, qu)
